@@ -146,6 +146,60 @@ def rule_construction(rep, pdb):
             ctx_ = Ctx.for_fn(pdb, fn)
             det = "nonzero = %s" % (show(nz, ctx_) if nz is not None else None)
         rep.add("lengths/from_vecs", rule, ok, fn["body"], det, where=loc(fn["body"]))
+        # ---- a validation of the raw arrays must accept what the crate itself produces: equal consecutive column starts are an empty column
+        rule_e = ("no panic guard of from_vecs holds for two EQUAL neighbouring entries of one array (`w[0] >= w[1]`, `col_start[j] >= col_start[j+1]`): equal consecutive "
+                  "column starts are how compressed-column storage encodes an empty column (from_triplets, insert and transpose produce them), so a strictness test rejects well-formed matrices")
+        ctx_ = Ctx.for_fn(pdb, fn)
+        bad_e, n_cmp = [], 0
+        for site in walk(fn["body"]):
+            if site.get("ty") != "!" or site.get("k") in ("Ret", "Break", "Continue", "Loop") or any(a.get("ty") == "!" for a in ancestors(site)):
+                continue
+            chain = [site] + list(ancestors(site))
+            for i_, a in enumerate(chain):
+                if a.get("k") != "If" or i_ == 0:
+                    continue
+                pol0 = True if any(z is a.get("then") for z in chain[:i_]) else (False if any(z is a.get("else") for z in chain[:i_]) else None)
+                if pol0 is None:
+                    continue
+
+                def scan(n_, pol):
+                    n_ = strip(n_)
+                    k_ = n_.get("k")
+                    if k_ == "Unary" and n_.get("op") == "!":
+                        return scan(n_["e"], not pol)
+                    if k_ == "Binary" and n_.get("op") in ("&&", "||"):
+                        return scan(n_["l"], pol) + scan(n_["r"], pol)
+                    if k_ == "Binary" and n_.get("op") in ("<", "<=", ">", ">=", "==", "!="):
+                        l_, r_ = strip(n_["l"]), strip(n_["r"])
+                        while l_.get("k") == "Unary" and l_.get("op") == "*":
+                            l_ = strip(l_["e"])
+                        while r_.get("k") == "Unary" and r_.get("op") == "*":
+                            r_ = strip(r_["e"])
+                        if l_.get("k") == "Index" and r_.get("k") == "Index":
+                            try:
+                                same_base = ctx_.term(l_["base"]) == ctx_.term(r_["base"]) and ctx_.term(l_["idx"]) != ctx_.term(r_["idx"])
+                            except Exception:
+                                same_base = False
+                            if same_base:
+                                op = n_["op"] if pol else {"<": ">=", "<=": ">", ">": "<=", ">=": "<", "==": "!=", "!=": "=="}[n_["op"]]
+                                return [(n_, op)]
+                        return []
+                    if k_ == "MethodCall":
+                        out = scan(n_["recv"], pol)
+                        for x in n_.get("args", []):
+                            out += scan(x, pol)
+                        return out
+                    if k_ == "Closure":
+                        return scan(n_["body"], pol)
+                    if k_ == "Block" and not n_.get("stmts") and n_.get("expr") is not None:
+                        return scan(n_["expr"], pol)
+                    return []
+                for cn, op in scan(a["cond"], pol0):
+                    n_cmp += 1
+                    if op in ("<=", ">=", "=="):
+                        bad_e.append(cn)
+        rep.add("lengths/from_vecs/accepts-empty-columns", rule_e, not bad_e, bad_e[0] if bad_e else fn["body"],
+                "comparisons of neighbouring entries in panic guards: %d, satisfied by equal entries: %d" % (n_cmp, len(bad_e)), where=loc(bad_e[0]) if bad_e else loc(fn["body"]))
     fn = pdb.fn("%s::from_triplets" % S)
     rule = "from_triplets: one push to each of row_index (.0), col_index (.1), val (.2) and nonzero += 1 per drained triplet; col_start computed from the column indices; rows/cols recorded"
     if fn is None:
